@@ -94,14 +94,19 @@ def relation(results, data_rows_total):
     return True, ""
 
 
-def make_srows(keys, nrows, unique):
+def make_srows(keys, nrows, unique, widths=None):
     n = len(keys)
+    widths = widths or [n] * nrows
     names = rf.field_names(keys)
     checks = ("c,uniq,IsUnique,%s" % names[0],) if unique else ()
     text = rf.cid_text(keys, checks=checks)
 
     def go(header, fault, cells):
-        rows = [[cells[r * n + j] for j in range(n)] for r in range(nrows)]
+        rows = []
+        k = 0
+        for r in range(nrows):
+            rows.append([cells[k + j] for j in range(widths[r])])
+            k += widths[r]
         results = {}
         with patched(rf.smart_repr(), *rf.srows_patches()):
             # one CID shared by the three modes; the three Readers are created up front and consumed in turn
@@ -131,12 +136,15 @@ def make_srows(keys, nrows, unique):
             assume(0 <= header <= 2)
             assume(-1 <= fault <= nrows)
             cells = [c0, c1, c2, c3, c4, c5]
-            for i in range(nrows * n):
+            for i in range(sum(widths)):
                 assume(len(cells[i]) <= 2)
             if unique:
+                pos = 0
                 for r in range(nrows):
-                    k = cells[r * n]
-                    assume(len(k) == 1 and ord(k) in (97, 98, 99))  # keys a/b valid, c invalid (alphabet bounded)
+                    if widths[r] > 0:
+                        k = cells[pos]
+                        assume(len(k) == 1 and ord(k) in (97, 98, 99))  # keys a/b valid, c invalid (alphabet bounded)
+                    pos += widths[r]
             ok, why, cls = go(header, fault, cells)
             return ok, cls
 
@@ -145,7 +153,11 @@ def make_srows(keys, nrows, unique):
     def replay(args):
         cells = [args["c%d" % i] for i in range(6)]
         ok, why, cls = go(args["header"], args["fault"], cells)
-        rows = [[cells[r * n + j] for j in range(n)] for r in range(nrows)]
+        rows = []
+        k = 0
+        for r in range(nrows):
+            rows.append([cells[k + j] for j in range(widths[r])])
+            k += widths[r]
         return (not ok), "fields %r unique=%s header %d fault_after %d rows %r: %s" % (
             keys, unique, args["header"], args["fault"], rows, why), "modes-relation"
 
@@ -302,14 +314,17 @@ def build(tier, seed):
     shapes = [(("ch", "t01"), 2, True), (("t12",), 3, False), (("ch", "t01"), 1, True), (("t12", "t01"), 2, False)]
     if tier == "thorough":
         shapes += [(("ch", "t01"), 3, True), (("t12",), 5, False), (("t12", "ch", "t1"), 2, False)]
-    for keys, nrows, unique in shapes:
-        mk, rp = make_srows(keys, nrows, unique)
-        queries.append(Query("C06/srows/%s/rows=%d%s" % ("+".join(keys), nrows, "/unique" if unique else ""),
+    shapes = [s + (None,) for s in shapes] + [(("ch", "t01"), 2, True, [1, 2]), (("t12", "t01"), 2, False, [3, 2]),
+                                              (("ch", "t01"), 3, True, [2, 3, 1])]
+    for keys, nrows, unique, widths in shapes:
+        mk, rp = make_srows(keys, nrows, unique, widths)
+        queries.append(Query("C06/srows/%s/rows=%d%s%s" % ("+".join(keys), nrows, "/unique" if unique else "",
+                                                          "/widths=%s" % ",".join(map(str, widths)) if widths else ""),
                              "modes", mk,
                              "fields %r, %d rows, all cells symbolic (len<=2; unique keys from {a,b,c}), header 0..2, "
                              "container fault after -1..%d rows, all three modes per path" % (keys, nrows, nrows),
                              budget_s=600 if tier == "quick" else 2400, per_path_timeout=90, replay=rp, functions=FUNCS,
-                             expect=("clean-err0", "fault-err0"),
+                             expect=("clean-err0", "fault-err0") if not widths else (),
                              stubs=("S-ROWS with fault injection", "S-FMT")))
     fixed = [((1, 1), "any", 6), ((2,), "lf", 6), ((1,), "none", 4)]
     if tier == "thorough":
